@@ -140,6 +140,15 @@ def uses_tokens(fn):
     return False
 
 
+def returns_value(fn):
+    """Does *fn* have a `return <expr>` with a value other than None?  (A function that never returns a value is a
+    procedure: falling off its end is not a missing result.)"""
+    for n in ast.walk(fn):
+        if isinstance(n, ast.Return) and n.value is not None and not (isinstance(n.value, ast.Constant) and n.value.value is None):
+            return True
+    return False
+
+
 def is_skip_helper(fn):
     """A function whose token loop discards tokens for which .is_WSC() holds."""
     for n in ast.walk(fn):
@@ -320,7 +329,7 @@ class Interp:
             self.lexer_exits = lex
             self.lexer_escapes = tuple(sorted(
                 {(x[7], x[8]) for x in lex if x[0] == "raise" and x[7] != "LexerError"
-                 and t3_key(x[7], x[8]) not in self.triaged_keys}))
+                 and not _matches(t3_key(x[7], x[8]), self.triaged_keys)}))
             res = self.summary("parser", defcls, fn, "FRESH", False, ())
             if not self.changed:
                 self.rounds = rounds + 1
@@ -397,7 +406,7 @@ class Interp:
                         out.returns.add((val if (keepval(val) or isinstance(val, tuple)) else "OTHER", st2))
             return out
         if isinstance(s, ast.Raise):
-            if f"{self.fq()}|{self.anchor(s)}" in self.infeasible:
+            if _matches(f"{self.fq()}|{self.anchor(s)}", self.infeasible):
                 return out          # triaged as infeasible (conditional on a table rule): path pruned
             for st in states:
                 if s.exc is None:
@@ -1011,7 +1020,7 @@ class Interp:
                 if kind == "return" and fn.name == "parse_end_aggregation":
                     s2 = s2.set("$closed", "TRUE")
                 if kind == "return":
-                    if origin == "falloff" and tok and self.value_used(e):
+                    if origin == "falloff" and tok and self.value_used(e) and returns_value(fn):
                         self.report("T8", f"{defcls}.{fn.name}" if defcls else fn.name, "falls off the end",
                                     f"{defcls}.{fn.name} can reach its end without `return <value>` (returns None) but "
                                     f"its result is used as a value", node=fn, used_at=self.where(e))
@@ -1122,6 +1131,11 @@ class Interp:
         if isinstance(p, ast.keyword):
             return True
         return False
+
+
+def _matches(key, patterns):
+    from .triage import matches
+    return matches(key, patterns)
 
 
 def t3_key(exc, origin):
